@@ -18,6 +18,19 @@ def wrapOfSpec (s : String) : String := match s.splitOn ":" with | [w, _] => w |
 
 def showF (f : FloatTy) (x : Dy) : String := s!"{tyTag f} {showDy x.num x.k}"
 
+/-- special-value tokens: nan inf -inf 0 -0, or an integer literal -/
+def fvOf (s : String) : Option FV :=
+  match s with
+  | "nan" => some .nan | "inf" => some (.inf false) | "-inf" => some (.inf true) | "0" => some (.zero false) | "-0" => some (.zero true)
+  | _ => (parseInt? s).map fun v => if v = 0 then .zero false else .fin ⟨v, 0⟩
+
+def showFV (f : FloatTy) : FV → String
+  | .nan => s!"{tyTag f} nan" | .inf n => s!"{tyTag f} {if n then "-inf" else "inf"}" | .zero n => s!"{tyTag f} {if n then "-0" else "0"}"
+  | .fin d => showF f d
+
+def cmpOf : String → Option FCmp
+  | "==" => some .eq | "!=" => some .ne | "<" => some .lt | "<=" => some .le | ">" => some .gt | ">=" => some .ge | _ => none
+
 def step (t : List String) : Option String :=
   match t with
   | ["fbin", op, l, r, an, ak, bn, bk] => do
@@ -41,6 +54,14 @@ def step (t : List String) : Option String :=
       match lt with
       | .int => pure "badop"
       | .flt f => pure s!"ok {showF f (Dy.neg ⟨an, ak⟩)}"
+  | ["fcmp", op, _l, _r, a, b] => do
+      let op ← cmpOf op; let a ← fvOf a; let b ← fvOf b
+      pure s!"ok {if fcmp op a b then 1 else 0}"
+  | ["fnegs", l, a] => do
+      let lt ← tyOfSpec l; let a ← fvOf a
+      match lt with
+      | .int => pure "badop"
+      | .flt f => pure s!"ok {showFV f a.neg}"
   | _ => none
 
 end Driver.FOpsEng
